@@ -572,7 +572,8 @@ def expect_model(hout, mout, case):
             if not same_dump(d["dumps"][di], mp[which]):
                 return (f"{ENTRY[e]}: decoded geometry / consumed bytes differ: implementation `{d['dumps'][di][:300]}` "
                         f"model `{mp[which][:300]}` for {replay_hint(case)}")
-    if not (mp[0].startswith("unsupported edgebreaker") or mp[0].startswith("unsupported kd-tree")):
+    seq = len(case.stream) > 8 and case.stream[8] == 0
+    if seq and not mp[0].startswith("unsupported"):
         if int(mkv.get("declared", 0)) != int(d.get("declared", 0)) and d.get("e1") != "badalloc":
             return (f"declared element count: harness parse {d.get('declared')} model {mkv.get('declared')} for {replay_hint(case)}")
     if mkv.get("valid") == "0":
@@ -667,6 +668,30 @@ def replay_cases(lines, oracles, flavour):
         skip = next((x[5:] for x in t if x.startswith("skip=")), "01234")
         cap = next((int(x[4:]) for x in t if x.startswith("cap=")), CAP)
         out.append(make_case(bytes.fromhex(hx) if hx != "-" else b"", skip, flavour, oracles, ("replay",), cap=cap))
+    return out
+
+
+def foreign_corrupt_cases(rng, tier, flavour="asan"):
+    """corrupt-stream families of the Edgebreaker / kd-tree / legacy-bitstream slices (harness op `dec` against the
+    complete Lean decoder: accept / reject and geometry must agree); empty when a module is missing"""
+    out = []
+    try:
+        from . import ebcases
+        out += ebcases.corrupt_cases(rng, ebcases.seed_streams(rng, 10 if tier == "quick" else 30),
+                                     per_stream=30 if tier == "quick" else 80, flavour=flavour)
+    except Exception as ex:       # noqa: BLE001 - optional families
+        C.log(f"[robustgen] ebcases not used: {ex}")
+    try:
+        from . import kdcases
+        out += kdcases.kd_corrupt_cases(rng, tier)
+    except Exception as ex:       # noqa: BLE001
+        C.log(f"[robustgen] kdcases not used: {ex}")
+    try:
+        from . import legacycases
+        out += legacycases.rewrite_cases(flavour=flavour)
+        out += legacycases.corrupt_cases(rng, per_stream=20 if tier == "quick" else 60, flavour=flavour)
+    except Exception as ex:       # noqa: BLE001
+        C.log(f"[robustgen] legacycases not used: {ex}")
     return out
 
 
